@@ -29,7 +29,7 @@ ASSUMPTIONS = [
     "pool workers are forked; per-chain generator states are copied by the harness before the pool runs",
 ]
 TIMEOUT = {"quick": 400, "thorough": 2400}
-REQUIRED = {"advance_calls": 300, "advance:m=0": 20, "advance:not_multiple_of_100": 100, "pool_runs": 16, "pool_chains_compared": 40,
+REQUIRED = {"advance_calls": 150, "advance:m=0": 20, "advance:not_multiple_of_100": 80, "pool_runs": 16, "pool_chains_compared": 40,
             "run_for_runs": 60, "run_for:slow_steps": 15}
 
 
